@@ -313,7 +313,8 @@ PROPS = {
     "C08": {
         "generated": True,
         "proof_modules": ["GrolProofs.Props.C08", "GrolProofs.Precedence"],
-        "theorems": ["Grol.C08.front_end_total", "Grol.C08.parse_good", "Grol.C08.safe_always", "Grol.Parser.parseProgram_good", "Grol.Parser.allSpec",
+        "theorems": ["Grol.C08.statement", "Grol.C08.terminates", "Grol.C08.statement_lexer", "Grol.C08.parse_returns", "Grol.Parser.parseProgram_terminates",
+                     "Grol.Parser.allTm", "Grol.LexStream.tokStream_eof", "Grol.C08.front_end_total", "Grol.C08.parse_good", "Grol.C08.safe_always", "Grol.Parser.parseProgram_good", "Grol.Parser.allSpec",
                      "Grol.C08.parser_never_panics", "Grol.C08.printer_never_panics", "Grol.C08.partial",
                      "Grol.Parser.parseProgram_no_panic", "Grol.Parser.allSafe", "Grol.Parser.streamWF_of_b",
                      "Grol.Printer.printProgram_no_panic", "Grol.Printer.infix_tokens_have_precedence",
